@@ -59,6 +59,8 @@ class BareMove:
         atoms = context.atoms
         if g(self, "kind") == "cell":
             atoms.set_cell(atoms.cell.array * 1.01, scale_atoms=True)
+        elif g(self, "kind") == "shear":  # volume-preserving change of the cell
+            atoms.set_cell(np.array([[1.0, 0.03, 0.0], [0.0, 1.0, 0.0], [0.0, 0.0, 1.0]]) @ atoms.cell.array, scale_atoms=True)
         elif len(atoms):
             atoms.positions[0] += np.array([0.01, -0.02, 0.015])
         return "yes"  # truthy, not a bool
@@ -122,6 +124,13 @@ def specs(tier):
     add("Isotension", [], bare_kind="cell")
     add("GrandCanonical", [["e", "E_trans"]], depth=3)
     add("GrandCanonical", [["e", "E_trans"], ["d", "D_ball"]])
+    # volume-preserving cell changes, the same user object under two names, several cycles per step
+    add("Isobaric", [], bare_kind="shear")
+    add("Isotension", [["s", "C_shape"]], bare_kind="shear")
+    add("GrandCanonical", [["e", "E_trans"]], twice=True)
+    add("Canonical", [["d", "D_ball"]], max_cycles=2)
+    add("GrandCanonical", [["e", "E_trans"]], max_cycles=2)
+    add("Isobaric", [["c", "C_iso"]], max_cycles=3, depth=1)
     return out
 
 
@@ -146,16 +155,18 @@ def make(spec, ch):
         sysm.mc, sysm.atoms, sysm.entries, sysm.leaves = mc, atoms, {}, []
         sysm.close = mc.close
     else:
-        sysm = build({k: v for k, v in spec.items() if k not in ("bare_kind", "depth")})
+        sysm = build({k: v for k, v in spec.items() if k not in ("bare_kind", "depth", "twice")})
     mc = sysm.mc
     install(mc, ChoiceRNG(ch, Policy(uniform_q=(0.3, 0.8), angular_q=None, product_limit=0, branch_calls=0)))
     bm, bc = BareMove("user-move", spec["bare_kind"]), BareCriteria("user-criteria")
     object.__setattr__(bm, "chooser", ch)
     object.__setattr__(bc, "chooser", ch)
     mc.add_move(bm, criteria=bc, name="bare")
+    if spec.get("twice"):  # the same user object registered a second time (other name and cadence)
+        mc.add_move(bm, criteria=bc, name="bare-again", interval=2)
     crits = {}
     for name, st in mc.moves.items():
-        if name != "bare":  # shipped moves judged by a bare user criteria as well
+        if not name.startswith("bare"):  # shipped moves judged by a bare user criteria as well
             c = BareCriteria(f"crit-{name}")
             object.__setattr__(c, "chooser", ch)
             st.criteria = c
@@ -254,7 +265,7 @@ def task(spec):
             if post is None:
                 continue
             verdict = post["verdict"]
-            if name == "bare":
+            if name in ("bare", "bare-again"):
                 counters["nontrivial"] += 1
                 called = post["mcalls"] - pre["mcalls"]
                 consulted = post["ccalls"] - pre["ccalls"]
